@@ -72,7 +72,7 @@ def summary(case, model):
 def read_sequential(File, data):
     """[(is_eflr, type, payload, encrypted, vr_pos, lrsh_pos)] from the code under test."""
     out = []
-    with File.FileRead(io.BytesIO(data)) as fr:
+    with File.FileRead(engine.handle(data)) as fr:
         sul = fr.sul
         for fld in fr.iter_logical_records():
             out.append((bool(fld.lr_is_eflr), fld.lr_type, bytes(fld.logical_data.bytes), bool(fld.lr_is_encrypted),
@@ -139,7 +139,7 @@ class RereadState:
         cc.sample(summary(init, model))
         self.exp = [(r['eflr'], r['type'], G.expected_payload(r, l), m['vr_pos'], m['lrsh_pos'])
                     for r, l, m in zip(init['records'], init['layouts'], model['records'])]
-        self.fr = File.FileRead(io.BytesIO(data))
+        self.fr = File.FileRead(engine.handle(data))
         self.fr._enter()
         self.passes = 0
         self.others = 0
